@@ -44,7 +44,8 @@ theorem valid_of_same {key : Node → String} {eqs eqs' : List C09.Eqn} (hl : eq
     exact this
 
 /-- If `Model.graph` can be built under one iteration order it can be built under every other, with the same node
-    SET and the same edge SET. (The node LIST differs: `graphNodes_depends_on_order`.) -/
+    SET and the same edge SET — no hypothesis on the keys. (With distinct `str` keys it is the same graph, lists and
+    all: `graph_order_independent` below.) -/
 theorem graph_indep (hπ : π.Fair) (hπ' : π'.Fair) {g : C09.Graph} (h : graph cx π obs F = .ok g) :
     ∃ g', graph cx π' obs F = .ok g' ∧ g'.nodes.Perm g.nodes ∧ ∀ e, e ∈ g'.edges ↔ e ∈ g.edges := by
   unfold graph at h ⊢
@@ -74,6 +75,57 @@ theorem graph_error_indep (hπ : π.Fair) (hπ' : π'.Fair) {x : C09.Err} (h : g
   | ok g' =>
       obtain ⟨g, hg, _⟩ := graph_indep hπ' hπ h'
       rw [h] at hg; cases hg
+
+/-! ## The node LIST (after the fix: references are sorted by `str` before they are walked) -/
+
+/-- `str` keys tell the references of any one equation apart (variable names are unique in a model; a derivative
+    prints as `Derivative(_x, _t)`) -/
+def RefKeys (cx : Ctx) (F : Flat) : Prop :=
+  ∀ e ∈ F.eqs, ∀ a ∈ e.rhs.leaves.map cx.num, ∀ b ∈ e.rhs.leaves.map cx.num, cx.key a = cx.key b → a = b
+
+theorem toEqn_sameSorted (hπ : π.Fair) (hπ' : π'.Fair) (hk : RefKeys cx F) :
+    ∀ e ∈ F.eqs, C09.SameSorted cx.key (toEqn cx π obs e) (toEqn cx π' obs e) := by
+  intro e he
+  refine ⟨rfl, rfl, ?_⟩
+  simp only [toEqn]
+  apply C09.sortStr_eq_of_perm cx.key ((hπ'.refs _ _).trans (hπ.refs _ _).symm)
+  intro a ha b hb
+  exact hk e he a ((hπ'.refs _ _).mem_iff.mp ha) b ((hπ'.refs _ _).mem_iff.mp hb)
+
+/-- **`Model.graph` is the same graph — node LIST (networkx insertion order) and edge LIST, or the same refusal —
+    whatever order the runtime gives the reference sets**, as long as `str` keys tell the references of an equation
+    apart. -/
+theorem graph_order_independent (hπ : π.Fair) (hπ' : π'.Fair) (hk : RefKeys cx F) :
+    graph cx π' obs F = graph cx π obs F := by
+  unfold graph system
+  exact C09.buildGraph_congr cx.key _ _ F.eqs (toEqn_sameSorted hπ hπ' hk)
+
+/-- `RefKeys` follows from the hypothesis of the query theorems (keys distinct on graph NODES) once the graph builds:
+    every reference is then a node -/
+theorem refKeys_of_graph {g : C09.Graph} (hπ : π.Fair) (h : graph cx π obs F = .ok g)
+    (hkey : ∀ a b, (C09.hasEq (system cx π obs F) a = true ∨ C09.isStateOrFree (system cx π obs F) a = true) →
+      (C09.hasEq (system cx π obs F) b = true ∨ C09.isStateOrFree (system cx π obs F) b = true) →
+      cx.key a = cx.key b → a = b) : RefKeys cx F := by
+  obtain ⟨hvalid, _⟩ := C09.buildGraph_valid h
+  intro e he a ha b hb
+  have hmem : toEqn cx π obs e ∈ system cx π obs F := List.mem_map.mpr ⟨e, he, rfl⟩
+  exact hkey a b (hvalid.refsOk _ hmem a ((hπ.refs _ _).mem_iff.mpr ha))
+    (hvalid.refsOk _ hmem b ((hπ.refs _ _).mem_iff.mpr hb))
+
+/-- **`list(Model.graph.nodes)` does not depend on the iteration order of the sets**: the same list, or both refused
+    (hypothesis as in `queries_order_independent`: `str` keys of graph nodes pairwise distinct) -/
+theorem graphNodes_order_independent (hπ : π.Fair) (hπ' : π'.Fair)
+    (hkey : ∀ a b, (C09.hasEq (system cx π obs F) a = true ∨ C09.isStateOrFree (system cx π obs F) a = true) →
+      (C09.hasEq (system cx π obs F) b = true ∨ C09.isStateOrFree (system cx π obs F) b = true) →
+      cx.key a = cx.key b → a = b) :
+    (graphNodes cx π obs F).toOption = (graphNodes cx π' obs F).toOption := by
+  unfold graphNodes
+  cases h : graph cx π obs F with
+  | error x =>
+      obtain ⟨y, hy⟩ := graph_error_indep hπ hπ' h
+      rw [hy]; rfl
+  | ok g =>
+      rw [graph_order_independent hπ hπ' (refKeys_of_graph hπ h hkey), h]
 
 /-- a query that filters the graph's nodes and sorts them by a key that is injective on what survives the filter -/
 theorem sorted_nodes_indep (hπ : π.Fair) (hπ' : π'.Fair) (p : Node → Bool) (k : Node → Nat)
